@@ -535,6 +535,10 @@ def shadowed(ns: dict, n_classes: int) -> set:
 # running one history: observed outcomes + oracle verdicts
 # ---------------------------------------------------------------------------
 
+WALKS: list = []          # filled by run_history when COLLECT_WALKS[0] > 0: (ops, class id, real iter_all_subclasses as ids)
+COLLECT_WALKS = [0]
+
+
 def run_history(h: Hist):
     """-> (observed per op (None for define), flags per op, failures [(step index, what, expected, observed, signature)])"""
     sb = Sandbox()
@@ -572,6 +576,15 @@ def run_history(h: Hist):
                     fails.append((k, f"{step['call']}({step['input']}) -> {fmt(obs)}: {why}",
                                   "one of " + ",".join(c.__name__ for c in should) if should else "SuitableVariantNotFoundError",
                                   fmt(obs), sig))
+        if COLLECT_WALKS[0] > 0:
+            COLLECT_WALKS[0] -= 1
+            from mashumaro.core.meta.helpers import iter_all_subclasses
+            for cid in range(n_classes):
+                try:
+                    w = [int(x.__name__[1:]) for x in iter_all_subclasses(ns[f"C{cid}"])]
+                except Exception:  # noqa: BLE001 - a non-class name: forces a mismatch
+                    w = [999999]
+                WALKS.append(([o for o in h.ops if o[0] == "define"], cid, w))
     finally:
         sb.close()
     return observed, flags, fails
@@ -771,9 +784,11 @@ def check_site_ok(ctx: vlib.Ctx):
 # the check
 # ---------------------------------------------------------------------------
 
+CODE_THEOREMS = ["C12_code_variants"]
 THEOREMS = ["C12_registry_invariant", "C12_registry", "C12_missing_tag", "C12_history_independent",
             "C12_eligible_exact", "C12_nofield", "C12_trace_event", "C12_tag_unique_decidable",
-            "C12_nonunique_order_dependent", "C12_class_level_self_excluded", "C12_nofield_inherited_unpacker_refuted"]
+            "C12_nonunique_order_dependent", "C12_class_level_self_excluded",
+            "C12_nofield_inherited_unpacker_refuted"]
 
 
 def make_replay(h: Hist, k: int, what: str, exp: str, obs: str) -> dict:
@@ -784,12 +799,15 @@ def make_replay(h: Hist, k: int, what: str, exp: str, obs: str) -> dict:
 def run(ctx: vlib.Ctx):
     ctx.coverage["rule"] = (
         "random histories (6..40 ops) of 'define class' / 'create site' / 'decode' over real dynamically created "
-        "dataclasses: 1-2 roots (mixin with Config.discriminator, mixin, plain), multi-level and diamond hierarchies, "
+        "dataclasses (exec of source in a fresh module): 1-2 roots (mixin with Config.discriminator, mixin, plain), "
+        "multi-level and diamond hierarchies, non-root classes with their own class-level discriminator (nested dispatchers), "
         "classes without own tag, tags as str/int/StrEnum/mixed declared as field/ClassVar/plain/Literal/Final, "
-        "variant_tagger_fn (bare or list), sites = Config root / Annotated holder field (direct or List) / BasicDecoder "
-        "over one class or a Union, include_subtypes x include_supertypes, field and no-field mode, decodes of present, "
-        "future, unknown and missing tags interleaved with definitions. distinct = (kind, wiring, sub, sup, tagger, "
-        "outcome kind, #classes defined after the site's first decode > 0, stale registry present)")
+        "variant_tagger_fn (bare or list result), sites = Config root (optionally called with dialect=) / Annotated holder "
+        "field (direct or List[...]) / BasicDecoder over one class or a Union, include_subtypes x include_supertypes, field "
+        "and no-field mode; decodes of present, future (class defined later), unknown and missing tags interleaved with "
+        "definitions and site creation; 25% of the histories have duplicate tags (correspondence only, oracle silent). "
+        "Plus 7 fixed edge histories and a stream inside the region of the known finding. distinct = (kind, wiring, sub, "
+        "sup, tagger, outcome kind, decode after a definition that followed the site's first decode, #bases)")
     ctx.assumptions += [
         "tag uniqueness is required only for the decoded tag among the classes defined before the event (tag_unique); "
         "without it the result depends on the history (C12_nonunique_order_dependent, reproduced on /repo each run)",
@@ -801,6 +819,8 @@ def run(ctx: vlib.Ctx):
         "inputs are mappings with hashable tags (non-mapping / unhashable inputs belong to C05)",
     ]
     ctx.trusted += [
+        "tools/kernels/k12_discr.py: translator of iter_all_subclasses / _get_variant_names / the class-level Discriminator rebuild "
+        "(generator -> list function with fuel, starred tuple entries -> concatenation; PyK_discr.v); validated against CPython every run",
         "Discr.v step/walk/refill: hand-written model of unpack.py:359-469 + helpers.iter_all_subclasses, compared with /repo on every run (M)",
         "modelled, not verified: type.__subclasses__() order = definition order, dict overwrite/lookup by ==/hash, "
         "class attribute lookup in own __dict__, dataclass __init__ acceptance = all default-less fields present",
@@ -808,13 +828,15 @@ def run(ctx: vlib.Ctx):
     ]
 
     br = ctx.theorems("props/C12_discr.vo", THEOREMS)
-    proofs_ok = br.ok
+    br2 = ctx.theorems("props/C12_code.vo", CODE_THEOREMS, kernels=["K12"])
+    ctx.checker_cmd = f"make -C {vlib.COQ} props/C12_discr.vo props/C12_code.vo (coqc 8.16.1, full .vo build)"
+    proofs_ok = br.ok and br2.ok and ctx.kernel_report.get("K12", {}).get("ok", False)
     if proofs_ok and not ctx.quick():
         # second opinion: the independent checker re-verifies the compiled library and reports axioms
         rc, out, _ = vlib.run(["timeout", "600", "coqchk", "-silent", "-o", "-Q", "theories", "Verif", "-Q", "props", "VerifProps",
-                               "VerifProps.C12_discr"], cwd=vlib.COQ, timeout=640)
+                               "-Q", "gen", "VerifGen", "VerifProps.C12_discr", "VerifProps.C12_code"], cwd=vlib.COQ, timeout=640)
         ok = rc == 0 and "* Axioms: <none>" in out
-        ctx.obligation("coqchk VerifProps.C12_discr (axioms: none)", ok, out[-600:])
+        ctx.obligation("coqchk VerifProps.C12_discr VerifProps.C12_code (axioms: none)", ok, out[-600:])
         if not ok:
             proofs_ok = False
             ctx.not_shown("coqchk VerifProps.C12_discr", out[-1500:])
@@ -822,6 +844,8 @@ def run(ctx: vlib.Ctx):
     check_site_ok(ctx)
 
     # ---- histories: fixed edge cases + random ones
+    del WALKS[:]
+    COLLECT_WALKS[0] = ctx.budget(70, 500)
     n_corr = ctx.budget(260, 4000)
     hists = fixed_histories() + [gen_history(ctx.rng) for _ in range(n_corr)]
     cases = []
@@ -847,6 +871,27 @@ def run(ctx: vlib.Ctx):
                                  "observed": [fmt(o) for o in observed], "flags": flags})
             ctx.not_shown("correspondence discr-model-vs-impl", f"{len(bad)} histories disagree, first: {detail}")
         ctx.correspondence("discr-model-vs-impl", len(cases), len(bad), detail)
+
+    # ---- (T) validation of the translated kernel K12 against the Python original on the real class graphs
+    if ctx.kernel_report.get("K12", {}).get("ok"):
+        wcases = ["(" + vlib.coq_list([coq_op(o) for o in ops]) + ", " + str(cid) + ", " + coq_nats(w) + ")" for (ops, cid, w) in WALKS]
+        bad, log = vlib.coq_bad_idx("c12_k12", "Discr K12Defs", "From VerifGen Require Import K12.",
+                                    "Close Scope Z_scope.\nOpen Scope nat_scope.\n", wcases, "k12_case_ok",
+                                    "list op * nat * list nat", shard=400, needs=["theories/K12Defs.vo"])
+        if bad is None:
+            corr_ok = False
+            ctx.correspondence("K12-translation-vs-python", len(wcases), -1, log)
+            ctx.not_shown("translation validation K12", log)
+        else:
+            d = ""
+            if bad:
+                corr_ok = False
+                ops, cid, w = WALKS[bad[0]]
+                d = json.dumps({"ops": [coq_op(o) for o in ops], "class": cid, "python_walk": w})
+                ctx.not_shown("translation validation K12", f"{len(bad)} walks disagree, first: {d}")
+            ctx.correspondence("K12-translation-vs-python", len(wcases), len(bad), d)
+    else:
+        corr_ok = False
 
     # ---- oracle on the same histories
     def account(h: Hist, observed, fails):
